@@ -29,6 +29,9 @@ OP_PROPS = {
     "typ.merge": ["C12", "C13"],
     "typ.remove": ["C14", "C13"],
     "typ.extract": ["C14", "C13"],
+    "upd.reset": ["C01", "C02", "C03", "C04", "C05", "C06", "C07", "C19", "C20"],
+    "upd.apply": ["C01", "C02", "C03", "C04", "C05", "C06", "C07", "C19", "C20"],
+    "upd.update": ["C05", "C06", "C19", "C20"],
 }
 
 PROPS = {
@@ -55,6 +58,14 @@ for _p in ("C11", "C12", "C13", "C14"):
         "lean_modules": ["SMD.Properties." + _p],
         "theorems": [],
         "assumptions": ["schemas of the generated family (sgen): structs, maps, sets, keyed lists (1, 2, defaulted keys), atomic list/map/struct, recursive types, deduced type, named / inlined / relationship-overriding references"],
+    }
+
+for _p in ("C01", "C02", "C03", "C04", "C05", "C06", "C07", "C19"):
+    PROPS[_p] = {
+        "domains": [{"name": "upd", "n_quick": 1200, "n_thorough": 30000}],
+        "lean_modules": ["SMD.Properties." + _p],
+        "theorems": [],
+        "assumptions": ["identity converter over 1-4 version labels; schemas of the generated family (sgen)"],
     }
 
 HOOK_COMMITS = []
